@@ -1,7 +1,10 @@
 (* C11 — Evolution strategies keep a valid search distribution and are rank-invariant.
-   Only statements + `exact`; proofs in C11Proofs.v, executable model in C11Model.v.
+   Only statements + `exact`; proofs in C11Proofs.v / C11MoreProofs.v (over Q, axiom-free) and C11CholProofs.v (over R: the
+   Cholesky-factor models take square roots; only the axioms of the standard library's real numbers), executable model
+   in C11Model.v.
 
-   PROVED here (all sizes, all inputs, all histories; over Q, axiom-free):
+   PROVED here (all sizes, all inputs, all histories):
+     over Q, closed under the global context
      * C11_selection_rank_invariant   selection/sorting on `map phi fitness` (phi strictly increasing) picks the same
                                       individuals in the same order as on `fitness` (model: stable insertion sort, so ties
                                       are covered by the model's tie rule), hence the rank-weighted recombination is identical;
@@ -12,17 +15,48 @@
                                       w_i >= 0, c1, cMu >= 0, c1 + cMu < 1, delta >= 0;
      * C11_cma_update_keeps_spd       the whole model step (selection + recombination + path + eq. 43) keeps C n x n,
                                       symmetric, positive definite;
+     * C11_cov_update_corner_psd / _pd_iff / _pd_delta   THE CORNER c1 + cMu = 1 (cMu = min(1 - c1, ..), large populations in
+                                      low dimension): C' is positive SEMI-definite; with hsig = 1 (delta = 0) it is positive
+                                      definite IF AND ONLY IF the evolution path (when c1 > 0) together with the selected steps
+                                      has full rank; with hsig = 0 (delta > 0) and c1 > 0 it is positive definite;
      * C11_sigma_update_pos           sigma * exp(.) > 0 for any positive exp;
      * C11_elitist_never_worse / C11_elitist_reported_never_worse / C11_elitist_reports_evaluated
                                       ElitistCMA's acceptance rule over arbitrary offspring histories;
-     * C11_penalized_value_at_closest_feasible   PenalizingEvaluator as coded.
-   PARTIAL: cov_update_pd needs c1 + cMu < 1 (CMA's cMu = min(1 - c1, ...) can make it = 1 for large populations in low
-     dimension; there positive definiteness rests on the rank of the sample, a probabilistic fact: monitored only).
-   ONLY COMPARED / MONITORED (tools/c11.py): that CMA::updatePopulation computes what [cma_update] computes (float
-     instantiation, 1e-10); eigendecomposition; CMSA / VD-CMA / cross-entropy / simplex internals; seed determinism;
-     rank invariance of the real optimizers on f vs 4f; convergence on the sphere. *)
-From Coq Require Import List QArith Lqa Permutation Sorted.
-From SharkV Require Import C11Model C11Proofs.
+     * C11_penalized_value_at_closest_feasible   PenalizingEvaluator as coded;
+     * C11_vd_D_update_pos_iff        VDCMA:  D += D*meanS  keeps D > 0 IF AND ONLY IF every component of meanS is > -1
+                                      (nothing in the code enforces it: monitored on every recorded update);
+     * C11_vd_cov_quad / _pd_iff / _sym   C = D(I + v v^T)D = diag(D)^2 + (D*v)(D*v)^T is symmetric, x^T C x = |D*x|^2 + (v.(D*x))^2,
+                                      and positive definite iff no component of D is zero, WHATEVER v is (so every v-update keeps it).
+     over R (standard-library axioms only: ClassicalDedekindReals.sig_forall_dec, ClassicalDedekindReals.sig_not_dec,
+       FunctionalExtensionality.functional_extensionality_dep, Classical_Prop.classic — the ones behind Coq's real numbers, sqrt and exp)
+     * C11_chol_update_spec           remora cholesky_decomposition::update(alpha, beta, v) as coded, alpha > 0: whenever it
+                                      returns, the new factor has the same shape, positive diagonal, and represents
+                                      alpha L L^T + beta v v^T (quadratic-form identity for every x);
+     * C11_chol_update_succeeds_pos   for beta >= 0 it always returns;
+     * C11_chol_update_downdate       for beta < 0 and v = L z it returns as soon as alpha + beta |z|^2 > 0, and
+                                      det(L'L'^T) = alpha^n det(L L^T) (1 + beta/alpha |z|^2)   (the determinant factor);
+     * C11_cmsa_update_keeps_spd      CMSA::updatePopulation as coded (one scaling + mu rank-one updates of the factor, sigma = mean
+                                      of the selected sigmas): for cC > 1, mu >= 1 no update throws, sigma' > 0, the factor stays
+                                      non-singular, x^T C' x = (1 - 1/cC) x^T C x + 1/(mu cC) sum_i (y_i.x)^2 > 0;
+     * C11_cmsa_cC_gt_1 / C11_cmsa_corner_cC_1   the constant of CMSA::doInit satisfies cC = 1 + n(n+1)/(2 mu) > 1; AT cC = 1 the code
+                                      as written multiplies the factor by sqrt(0): the rank-one updates then start from the ZERO factor;
+     * C11_active_rate_guard          the guard of CMAChromosome::updateAsParent: the rate r used satisfies r > 0, r(|z|^2 - 1) < 1;
+     * C11_chrom_offspring_update / C11_chrom_parent_update / C11_ecma_chrom_step_keeps_spd
+                                      CMAChromosome::updateAsOffspring / updateAsParent / roundUpdate inside ElitistCMA::step, every
+                                      branch: no exception, sigma' > 0, factor with positive diagonal, covariance positive definite,
+                                      x^T C' x identity per branch, determinant factor (1+r)^n (1 - r/(1+r)|z|^2) of the active update;
+     * C11_vd_sample_covariance       VDCMA::createSample: y = (I + a vn vn^T) z has |y|^2 = |z|^2 + (v.z)^2, x = m + sigma D*y.
+   STILL NOT PROVED: that D of VDCMA stays positive along a run (it does iff meanS > -1, a property of the sample); full rank of the
+     rank-mu part in the CMA corner (probabilistic); convergence; the symmetric eigendecomposition; floating-point rounding.
+   COMPARED on every run (tools/c11.py, float instantiation of the SAME model functions, 1e-10, on states/offspring recorded from the
+     real optimizers): cma_update = CMA::updatePopulation; cmsa_update = CMSA::updatePopulation; ecma_chrom_step = the CMAChromosome
+     update inside ElitistCMA::step; vd_update / vd_sample = VDCMA::updateStrategyParameters / createSample; chol_update =
+     cholesky_decomposition::update on exact inputs including its exception exit; elitist_step, penalized_eval exactly.
+   ONLY MONITORED: eigendecomposition; cross-entropy / simplex internals; seed determinism; rank invariance of the real
+     optimizers on f vs 4f; convergence on the sphere; D > 0 in VDCMA. *)
+From Coq Require Import List QArith Lqa Permutation Sorted Reals.
+From SharkV Require Import C11Model C11Proofs C11MoreProofs C11CholProofs.
+Open Scope Q_scope.
 Import ListNotations.
 
 Theorem C11_selection_rank_invariant :
@@ -146,4 +180,231 @@ Proof.
   split; [apply cov_update_pd_lemma; auto; try lra; repeat constructor; lra|].
   split; [apply cov_update_sym_lemma; auto; repeat constructor|].
   split; vm_compute; reflexivity.
+Qed.
+
+(* ================================================================ the corner c1 + cMu = 1 of CMA (over Q) *)
+Theorem C11_cov_update_corner_psd :
+  forall sq ex pw n c1 cmu delta s C p ws ys,
+  isnn n C -> length p = n -> Forall (fun y => length y = n) ys ->
+  posdef sq ex pw n C -> 0 <= c1 -> 0 <= cmu -> c1 + cmu <= 1 -> 0 <= delta -> 0 <= s ->
+  Forall (fun w => 0 <= w) ws ->
+  forall x, length x = n -> 0 <= quad (QO sq ex pw) (cov_update (QO sq ex pw) n c1 cmu delta s C p ws ys) x.
+Proof. exact cov_update_corner_psd. Qed.
+Print Assumptions C11_cov_update_corner_psd.
+
+Theorem C11_cov_update_corner_pd_iff :
+  forall sq ex pw n c1 cmu s C p ws ys,
+  isnn n C -> length p = n -> Forall (fun y => length y = n) ys ->
+  0 <= c1 -> c1 + cmu == 1 -> 0 < s -> Forall (fun w => 0 < w) ws -> length ws = length ys ->
+  (posdef sq ex pw n (cov_update (QO sq ex pw) n c1 cmu 0 s C p ws ys) <-> spans sq ex pw n (corner_gens c1 p ys)).
+Proof. exact cov_update_corner_pd_iff. Qed.
+Print Assumptions C11_cov_update_corner_pd_iff.
+
+Theorem C11_cov_update_corner_pd_delta :
+  forall sq ex pw n c1 cmu delta s C p ws ys,
+  isnn n C -> length p = n -> Forall (fun y => length y = n) ys ->
+  posdef sq ex pw n C -> 0 < c1 -> 0 <= cmu -> c1 + cmu <= 1 -> 0 < delta -> 0 <= s ->
+  Forall (fun w => 0 <= w) ws ->
+  posdef sq ex pw n (cov_update (QO sq ex pw) n c1 cmu delta s C p ws ys).
+Proof. exact cov_update_corner_pd_delta. Qed.
+Print Assumptions C11_cov_update_corner_pd_delta.
+
+(* ================================================================ VDCMA (over Q) *)
+Theorem C11_vd_D_update_pos_iff :
+  forall sq ex pw D s, length D = length s -> Forall (fun d => 0 < d) D ->
+  (Forall (fun d => 0 < d) (vd_D_update (QO sq ex pw) D s) <-> Forall (fun si => -(1) < si) s).
+Proof. exact vd_D_update_pos_iff. Qed.
+Print Assumptions C11_vd_D_update_pos_iff.
+
+Theorem C11_vd_cov_quad :
+  forall sq ex pw D v x, length v = length D -> length x = length D ->
+  quad (QO sq ex pw) (vd_cov (QO sq ex pw) D v) x ==
+    normsqr (QO sq ex pw) (vmul (QO sq ex pw) D x)
+    + dot (QO sq ex pw) v (vmul (QO sq ex pw) D x) * dot (QO sq ex pw) v (vmul (QO sq ex pw) D x).
+Proof. exact vd_cov_quad. Qed.
+Print Assumptions C11_vd_cov_quad.
+
+Theorem C11_vd_cov_pd_iff :
+  forall sq ex pw D v, length v = length D ->
+  (posdef sq ex pw (length D) (vd_cov (QO sq ex pw) D v) <-> Forall (fun d => ~ d == 0) D).
+Proof. intros sq ex pw D v L. split; [apply vd_cov_pd_conv; exact L|apply vd_cov_pd; exact L]. Qed.
+Print Assumptions C11_vd_cov_pd_iff.
+
+Theorem C11_vd_cov_sym :
+  forall sq ex pw D v, length v = length D -> msym sq ex pw (vd_cov (QO sq ex pw) D v).
+Proof. exact vd_cov_sym. Qed.
+Print Assumptions C11_vd_cov_sym.
+
+(* ---- the hypotheses are satisfiable (Q) *)
+Example C11_corner_example :
+  let C' := cov_update (QO idq idq pw0) 2 (1#5) (4#5) 0 1 I2 [0; 0] [1#2; 1#2] [[1; 0]; [1; 1]] in
+  spans idq idq pw0 2 (corner_gens (1#5) [0; 0] [[1; 0]; [1; 1]]) /\ posdef idq idq pw0 2 C'.
+Proof.
+  destruct C11_identity_is_spd as (A & B & C).
+  assert (spans idq idq pw0 2 (corner_gens (1#5) [0; 0] [[1; 0]; [1; 1]])) as S.
+  { intros x L N. destruct x as [|a [|b [|c x]]]; try discriminate. unfold corner_gens. cbn.
+    destruct (Qeq_dec a 0) as [Ea|Ea].
+    - exists [1; 1]. split; [auto|]. cbn. intro Z. apply N. repeat constructor; auto. lra.
+    - exists [1; 0]. split; [auto|]. cbn. intro Z. apply Ea. lra. }
+  split; auto. apply C11_cov_update_corner_pd_iff; auto; try lra; repeat constructor; lra.
+Qed.
+
+Example C11_vd_example :
+  posdef idq idq pw0 2 (vd_cov (QO idq idq pw0) [1; 2] [1; -(1)]) /\
+  Forall (fun d => 0 < d) (vd_D_update (QO idq idq pw0) [1; 2] [-(1#2); 3]).
+Proof.
+  split.
+  - apply (C11_vd_cov_pd_iff idq idq pw0 [1; 2] [1; -(1)]); auto. repeat constructor; intro; lra.
+  - apply C11_vd_D_update_pos_iff; auto; repeat constructor; lra.
+Qed.
+
+(* ================================================================ Cholesky-factor optimizers (over R) *)
+From Coq Require Import Lra.
+Open Scope R_scope.
+
+Theorem C11_chol_update_spec :
+  forall alpha beta cols (v : list R) cols',
+  0 < alpha -> wf cols -> dnz cols -> (beta <> 0 -> length v = length cols) ->
+  chol_update RO alpha beta cols v = Some cols' ->
+  wf cols' /\ length cols' = length cols /\ dnz cols' /\ (dpos cols -> dpos cols') /\
+  forall x, length x = length cols ->
+    fquad RO cols' x = alpha * fquad RO cols x + beta * (dot RO v x * dot RO v x).
+Proof. exact chol_update_spec. Qed.
+Print Assumptions C11_chol_update_spec.
+
+Theorem C11_chol_update_succeeds_pos :
+  forall alpha beta cols (v : list R),
+  0 < alpha -> 0 <= beta -> wf cols -> dnz cols -> (beta <> 0 -> length v = length cols) ->
+  exists cols', chol_update RO alpha beta cols v = Some cols'.
+Proof. exact chol_update_ok_pos. Qed.
+Print Assumptions C11_chol_update_succeeds_pos.
+
+Theorem C11_chol_update_downdate :
+  forall alpha beta cols (z : list R),
+  0 < alpha -> beta < 0 -> wf cols -> dnz cols -> length z = length cols ->
+  0 < alpha + beta * sumsq z ->
+  exists cols', chol_update RO alpha beta cols (lmulz RO cols z) = Some cols' /\
+                detsq cols' = alpha ^ length cols * detsq cols * (1 + beta / alpha * sumsq z).
+Proof. exact chol_update_ok_neg. Qed.
+Print Assumptions C11_chol_update_downdate.
+
+(* a factor with non-zero diagonal represents a positive definite covariance *)
+Theorem C11_factor_nonsingular_pd :
+  forall cols x, wf cols -> dnz cols -> length x = length cols -> rnonzero x -> 0 < fquad RO cols x.
+Proof. exact fquad_pos. Qed.
+Print Assumptions C11_factor_nonsingular_pd.
+
+Theorem C11_cmsa_update_keeps_spd :
+  forall (n mu : nat) cC cols (offspring : list (R * (list R * (list R * R)))),
+  1 < cC -> (0 < mu)%nat -> offspring <> [] ->
+  wf cols -> dpos cols -> length cols = n ->
+  Forall (fun i => length (fst (snd (snd i))) = n /\ 0 < snd (snd (snd i))) offspring ->
+  exists m s cols', cmsa_update RO n mu cC cols offspring = Some (m, s, cols') /\
+    0 < s /\ wf cols' /\ length cols' = n /\ dpos cols' /\
+    (forall x, length x = n -> rnonzero x -> 0 < fquad RO cols' x) /\
+    (forall x, length x = n ->
+       fquad RO cols' x = (1 - 1 / cC) * fquad RO cols x + 1 / INR mu * 1 / cC *
+          sumf (map (fun i => fst (snd (snd i))) (select RO mu offspring)) (fun y => dot RO y x * dot RO y x)).
+Proof. exact cmsa_update_ok. Qed.
+Print Assumptions C11_cmsa_update_keeps_spd.
+
+Theorem C11_cmsa_cC_gt_1 :
+  forall n mu : nat, (0 < n)%nat -> (0 < mu)%nat -> 1 < 1 + (INR n * (INR n + 1)) / (2 * INR mu).
+Proof. exact cmsa_cC_gt_1. Qed.
+Print Assumptions C11_cmsa_cC_gt_1.
+
+Theorem C11_cmsa_corner_cC_1 :
+  forall cols, exists cols0, chol_update RO (1 - 1 / 1) 0 cols [] = Some cols0 /\ forall x, fquad RO cols0 x = 0.
+Proof. exact cmsa_corner_cC_1. Qed.
+Print Assumptions C11_cmsa_corner_cC_1.
+
+Theorem C11_chrom_sigma_pos :
+  forall k sigma psucc, 0 < sigma -> 0 < chrom_sigma RO k sigma psucc.
+Proof. exact chrom_sigma_pos. Qed.
+Print Assumptions C11_chrom_sigma_pos.
+
+Theorem C11_active_rate_guard :
+  forall cu zz, 0 < cu -> 0 <= zz -> let r := active_rate RO cu zz in 0 < r /\ r * (zz - 1) < 1.
+Proof. exact active_rate_ok. Qed.
+Print Assumptions C11_active_rate_guard.
+
+Theorem C11_chrom_offspring_update :
+  forall k n c, chrom_consts_ok k -> chrom_ok n c ->
+  exists c', chrom_offspring RO k c = Some c' /\ chrom_good n c' /\
+    forall x, length x = n ->
+      fquad RO (h_L c') x =
+        (if Rltb (h_psucc c') (q_pthresh k) then 1 - q_ccov k else 1 - q_ccov k + q_cc k * (2 - q_cc k))
+          * fquad RO (h_L c) x
+        + q_ccov k * (dot RO (h_pc c') x * dot RO (h_pc c') x).
+Proof. exact chrom_offspring_ok. Qed.
+Print Assumptions C11_chrom_offspring_update.
+
+Theorem C11_chrom_parent_update :
+  forall k n s c, chrom_consts_ok k -> chrom_ok n c ->
+  exists c', chrom_parent RO k s c = Some c' /\ chrom_good n c' /\
+    (s <> Failure -> h_L c' = h_L c) /\
+    (s = Failure -> forall x, length x = n ->
+       fquad RO (h_L c') x =
+         if Rltb (h_psucc c') (q_pthresh k)
+         then let r := active_rate RO (q_cu k) (normsqr RO (h_z c)) in
+              (1 + r) * fquad RO (h_L c) x - r * (dot RO (h_step c) x * dot RO (h_step c) x)
+         else (1 - q_ccov k + q_cc k * (2 - q_cc k)) * fquad RO (h_L c) x
+              + q_ccov k * (dot RO (h_pc c') x * dot RO (h_pc c') x)) /\
+    (s = Failure -> Rltb (h_psucc c') (q_pthresh k) = true ->
+       let r := active_rate RO (q_cu k) (normsqr RO (h_z c)) in
+       detsq (h_L c') = (1 + r) ^ n * detsq (h_L c) * (1 - r / (1 + r) * normsqr RO (h_z c))).
+Proof. exact chrom_parent_ok. Qed.
+Print Assumptions C11_chrom_parent_update.
+
+Theorem C11_ecma_chrom_step_keeps_spd :
+  forall k n active anc pen c, chrom_consts_ok k -> chrom_ok n c ->
+  exists c', ecma_chrom_step RO k active anc pen c = Some c' /\ chrom_good n c'.
+Proof. exact ecma_chrom_step_ok. Qed.
+Print Assumptions C11_ecma_chrom_step_keeps_spd.
+
+Theorem C11_vd_sample_covariance :
+  forall mean sigma D vn normv (z : list R),
+  length z = length vn -> dot RO vn vn = 1 ->
+  let r := vd_sample RO mean sigma D vn normv z in
+  fst r = vadd RO mean (vmul RO (vscale RO sigma D) (snd r)) /\
+  snd r = vadd RO z (vscale RO ((sqrt (1 + normv * normv) - 1) * dot RO z vn) vn) /\
+  normsqr RO (snd r) = normsqr RO z + dot RO (vscale RO normv vn) z * dot RO (vscale RO normv vn) z.
+Proof. exact vd_sample_spec. Qed.
+Print Assumptions C11_vd_sample_covariance.
+
+(* ---- the hypotheses are satisfiable (R):  L = [[2,0],[1,1]] as trailing columns *)
+Definition L2 : list (list R) := [[2; 1]; [1]].
+Definition k2 : chrom_consts R := mkCC (1/10) 2 (2/11) (1/2) (1/5) (1/10) (11/25).
+Definition c2 : chrom R := mkChrom L2 [0; 0] (lmulz RO L2 [1; 1]) [1; 1] 1 (2/11).
+
+Example C11_L2_is_factor : wf L2 /\ dpos L2.
+Proof. split; [cbn; auto|]. repeat constructor; cbn; lra. Qed.
+
+Example C11_chrom_example :
+  chrom_consts_ok k2 /\ chrom_ok 2 c2 /\
+  exists c', ecma_chrom_step RO k2 true [1; 1; 1; 1; 1] 2 c2 = Some c' /\ chrom_good 2 c'.
+Proof.
+  destruct C11_L2_is_factor as (W & D).
+  assert (chrom_consts_ok k2) as K by (unfold chrom_consts_ok, k2; cbn; repeat split; lra).
+  assert (chrom_ok 2 c2) as Ok by (unfold chrom_ok, c2; cbn [h_L h_pc h_z h_step h_sigma]; repeat split; auto; lra).
+  split; auto. split; auto. apply C11_ecma_chrom_step_keeps_spd; auto.
+Qed.
+
+Example C11_cmsa_example :
+  exists m s cols', cmsa_update RO 2 1 2 L2 [(3, ([0; 0], ([1; 0], 1))); (1, ([1; 1], ([0; 1], 1/2)))] = Some (m, s, cols') /\
+                    0 < s /\ dpos cols'.
+Proof.
+  destruct C11_L2_is_factor as (W & D).
+  destruct (C11_cmsa_update_keeps_spd 2 1 2 L2 [(3, ([0; 0], ([1; 0], 1))); (1, ([1; 1], ([0; 1], 1/2)))]) as (m & s & c & H & Hs & _ & _ & Hd & _);
+    auto; try lra; try discriminate.
+  - repeat constructor; cbn; lra.
+  - exists m, s, c. auto.
+Qed.
+
+Example C11_downdate_example :
+  exists cols', chol_update RO 1 (-(1/2)) L2 (lmulz RO L2 [1; 0]) = Some cols' /\
+                detsq cols' = 1 ^ 2 * detsq L2 * (1 + -(1/2) / 1 * sumsq [1; 0]).
+Proof.
+  destruct C11_L2_is_factor as (W & D).
+  apply C11_chol_update_downdate; auto; try lra; try (apply dpos_dnz; auto). cbn. lra.
 Qed.
